@@ -47,7 +47,7 @@ XInit(t) ==
       flip |-> FALSE, flipBack |-> FALSE,
       dest |-> IF t.hasOld THEN "old" ELSE "absent", temps |-> 0,
       destBad |-> FALSE, tempsAtResult |-> 0, destAtResult |-> "",
-      srcRead |-> 0, partDone |-> 0, recv |-> 0, wrote |-> 0,
+      srcRead |-> 0, partDone |-> 0, bigPart |-> FALSE, recv |-> 0, wrote |-> 0,
       hiPart |-> -1, finParts |-> {},
       ranges |-> {}, uids |-> {} ]
 
@@ -61,7 +61,7 @@ InitObs(meta) ==
       x |-> [i \in 1..Len(meta.xs) |-> XInit(meta.xs[i])],
       mpu |-> <<>>,
       xferOpen |-> 0, headOpen |-> 0, overR |-> FALSE, overS |-> FALSE,
-      reqThreads |-> {}, occBad |-> {}, ioWriteBig |-> FALSE,
+      reqThreads |-> {}, occBad |-> {}, ioWriteBig |-> FALSE, ioTaskBytes |-> -1,
       memBad |-> {},
       shutdown |-> FALSE, afterShutdown |-> {}, undoneAtShutdown |-> FALSE,
       cancelAll |-> FALSE, cancelAllHow |-> "", cancelRaised |-> FALSE,
@@ -196,6 +196,9 @@ S3End(o0, ev) ==
                  !.x[i].cplBad = IF ev.op = "CompleteMultipartUpload"
                                  THEN @ \cup CplFlags(ev.parts, xr.size) ELSE @,
                  !.x[i].ranges = IF ev.op = "GetObject" /\ ok THEN @ \cup {<<ev.bs, ev.bl>>} ELSE @,
+                 !.x[i].bigPart = @ \/ (ev.op \in {"UploadPart", "PutObject"} /\ xr.srck \in {"seekable", "nonseekable"}
+                                            /\ ev.op = "UploadPart"
+                                            /\ ev.bl > Max(o3.cfg.chunk, o3.cfg.threshold)),
                  !.x[i].partDone = IF IsPartOp(ev.op) /\ ev.bl > 0 THEN @ + ev.bl
                                    ELSE IF ev.op = "PutObject" /\ ev.bl > 0 THEN @ + ev.bl ELSE @]
     IN o4
@@ -245,7 +248,13 @@ DstWrite(o0, ev) ==
               THEN [m EXCEPT !.sbad = @ \/ (ev.off # xr.snext),
                              !.snext = ev.off + ev.len, !.wrote = @ + ev.len]
               ELSE [m EXCEPT !.wrote = @ + ev.len]
-    IN [o0 EXCEPT !.x[i] = x2]
+        \* bytes written by the IO-stage task that is running (one queued
+        \* write = at most one chunk of io_chunksize)
+        tb == IF o0.ioTaskBytes >= 0 /\ ev.ok THEN o0.ioTaskBytes + ev.len ELSE o0.ioTaskBytes
+    IN [o0 EXCEPT !.x[i] = x2, !.ioTaskBytes = tb,
+                  !.ioWriteBig = @ \/ (tb > o0.cfg.io_chunk)]
+
+IoTask(o0, ev) == [o0 EXCEPT !.ioTaskBytes = IF ev.ph = "b" THEN 0 ELSE -1]
 
 FsEvent(o0, ev) ==      \* open / close / rename / remove of the destination's files
     LET o == Late(AfterDone(o0, ev.x, "fs"), "fs")
@@ -273,7 +282,8 @@ CbBegin(o0, ev) ==
     LET xr == o.x[i] IN
     CASE ev.cb = "queued" ->
            [o EXCEPT !.x[i].q[ev.sub] = @ + 1, !.x[i].queuedBegun = TRUE,
-                     !.x[i].queuedAfterEarlyCancel = @ \/ xr.cancelEarly]
+                     !.x[i].queuedAfterEarlyCancel = @ \/ xr.cancelEarly,
+                     !.x[i].afterDone = IF xr.doneBegun THEN @ \cup {"queued"} ELSE @]
       [] ev.cb = "progress" ->
            LET s == xr.prog[ev.sub] + ev.n IN
            [o EXCEPT !.x[i].prog[ev.sub] = s,
@@ -408,6 +418,7 @@ Apply(o0, ev) ==
       [] ev.e = "ShutdownEnd" -> Shutdown(o, ev)
       [] ev.e = "ExecSubmit" -> ExecSubmit(o, ev)
       [] ev.e = "SrcRead" -> SrcRead(o, ev)
+      [] ev.e = "IoTask" -> IoTask(o, ev)
       [] ev.e = "Stuck" -> [o EXCEPT !.stuck = ev.kind]
       [] ev.e = "End" -> End(o, ev)
       [] OTHER -> o
